@@ -73,6 +73,39 @@ func c15R13(p *core.Prog, r *core.Report) {
 			cal := c.Call.StaticCallee()
 			return cal != nil && cal.Name() == "IsArrayValue" && cal.Signature.Recv() != nil
 		}
+		// implies(v, want): "v == want" entails that IsArrayValue() returned true.
+		// Covers the call itself, negations, and the phi of a short-circuit
+		// conjunction / disjunction kept in a local (`ok := a && b && x.IsArrayValue()`).
+		var implies func(v ssa.Value, want bool, depth int) bool
+		implies = func(v ssa.Value, want bool, depth int) bool {
+			if depth > 4 {
+				return false
+			}
+			switch x := v.(type) {
+			case *ssa.Call:
+				return want && isArrayCall(x)
+			case *ssa.UnOp:
+				if x.Op == token.NOT {
+					return implies(x.X, !want, depth+1)
+				}
+			case *ssa.Phi:
+				some := false
+				for _, e := range x.Edges {
+					if c, isC := e.(*ssa.Const); isC && c.Value != nil && c.Value.Kind() == constant.Bool {
+						if constant.BoolVal(c.Value) == want {
+							return false // the constant edge yields `want` without the test
+						}
+						continue
+					}
+					if !implies(e, want, depth+1) {
+						return false
+					}
+					some = true
+				}
+				return some
+			}
+			return false
+		}
 		n := 0
 		for _, b := range fn.Blocks {
 			for _, ins := range b.Instrs {
@@ -103,19 +136,17 @@ func c15R13(p *core.Prog, r *core.Report) {
 					if !isIf || d == b {
 						continue
 					}
-					cond, neg := iff.Cond, false
-					if u, isU := cond.(*ssa.UnOp); isU && u.Op == token.NOT {
-						cond, neg = u.X, true
-					}
-					if !isArrayCall(cond) {
-						continue
-					}
+					// the side of the branch that dominates the site
 					t, f := d.Succs[0], d.Succs[1]
-					if neg {
-						t, f = f, t
-					}
-					if t.Dominates(b) && !f.Dominates(b) {
-						ok = true
+					switch {
+					case t.Dominates(b) && !f.Dominates(b):
+						if implies(iff.Cond, true, 0) {
+							ok = true
+						}
+					case f.Dominates(b) && !t.Dominates(b):
+						if implies(iff.Cond, false, 0) {
+							ok = true
+						}
 					}
 				}
 				if ok {
